@@ -290,7 +290,7 @@ PLANS['C18'] = {
              'and the two cfg hooks: before the table lock in new(), and between the last release and the table clean-up in Drop) and releases one thread at a time; '
              'EVERY schedule of every program set in the scopes under exhaustive_scopes is executed (DFS over release choices, replayable from the choice string); '
              'oracle at every quiescent point: handle bytes, ==/Hash, all live handles of equal content share one buffer address, no deadlock, table back to its initial size after all drops; '
-             'plus a 16-thread uncontrolled stress run with jitter injected at the hooks and the same oracle at barriers; '
+             'plus a 16-thread uncontrolled stress run with jitter injected at the hooks and the same oracle at barriers, ending with a unique-contents phase and a rendezvous phase (pairs of threads drop the last two handles of a unique string at the same instant) before the final table-size check; '
              'non-trivial = schedule with >=2 scheduling decisions; distinct = (program set, choice string)'),
     'floor': {'quick': 20000, 'thorough': 300000},
     'exhaustive': {},
@@ -415,7 +415,8 @@ PLANS['C13'] = {
              'inputs: random bytes (with/without valid magic), valid binary (none/lz4/zstd), XML and attribute files mutated by bit flips, byte/u32 substitutions, off-by-one on length fields, '
              'insert/delete/duplicate/splice, header / chunk-header / leading-count edits and chunk reordering, XML element text edited in place (multi-byte characters at the same byte length, number syntax, '
              'off-by-one lengths, long runs); every 64 calls the same worker re-decodes three valid files and must report the digests it reported before it saw anything hostile (state left behind); XML bombs (nesting 1e2..1e5, entity expansion, huge numbers/attributes, invalid UTF-8); '
-             'a structure-aware hostile corpus (~75 single-fault files built with the independent encoder primitives); '
+             'a structure-aware hostile corpus (~75 single-fault files built with the independent encoder primitives, plus ~250 well-formed binary and XML files whose blob-typed properties - MaterialColors, Tags, Attributes - '
+             'carry blobs of every length 0..80 and hostile contents); '
              'fault enumeration: every strict prefix of each valid base file must be an error; every mutated/valid input is re-read through 1-byte, short-read and Interrupted readers and must give the same result; '
              'a sink failing at every output offset must make the writers return Err (or identical bytes when only interrupted). '
              'Oracles: outcome in {Ok, Err}, largest single allocation <= max(16 MiB, 1024 x input), no watchdog timeout; non-trivial = every input; distinct = hash of the input'),
@@ -517,7 +518,8 @@ PLANS['C16'] = {
              'property; type = declared, serialized, or a documented widening); then for EACH class an instance populated with all its serializable defaults is written and read by both codecs and compared '
              'with the C01/C02 oracle; for EACH class a donor instance sets every default-carrying property to another value and a bare instance next to it must come back with the default visible on that class (nearest class wins); then EACH (class, own descriptor name) goes once through both writers and, where written, both readers (lookup paths must not panic; own output must be readable); '
              'the Lua-side copy rbx_dom_lua/src/database.json is cross-checked (version, classes, property sets, kinds); a modified copy of the database (one more serializes-as pair with a default) is handed to both codecs '
-             'through their public options in both chain orders x all compression types / property behaviours and must be the database actually used (wire name, name on the way back, default, identical output for both orders). non-trivial = each class default instance per format; distinct = class x format'),
+             'through their public options, and the bundled database is sent through the encodings rbx_reflector writes (MessagePack, human-readable MessagePack; JSON written and counted) and back with every class / descriptor / default / enum compared; the modified copy goes '
+             'in both chain orders x all compression types / property behaviours and must be the database actually used (wire name, name on the way back, default, identical output for both orders). non-trivial = each class default instance per format; distinct = class x format'),
     'floor': {'quick': 15000, 'thorough': 15000},
     'exhaustive': {'quick': True, 'thorough': True},
     'assumptions': ['the exhaustive walk covers the bundled database; a regenerated database is covered by re-running the same check (the codecs\' handling of a caller-supplied database is exercised with one modified copy)', 'two canonical descriptors sharing a wire name are reported as informational (see known findings of C01/C03)'],
